@@ -27,6 +27,7 @@ func heatmapFunction(c *cli.Context) error {
 		scalerName = c.String(helpers.ScaleFlag.Name)
 		formatName = c.String(helpers.FormatFlag.Name)
 	)
+	helpers.NonNegativeOrFail(c, "num", "cols")
 
 	counter := aggregation.NewTable(delim)
 
